@@ -115,24 +115,59 @@ func (s *Sess) CreatePDR(req *ie.IE) error {
 			if err1 != nil {
 				break
 			}
-			if _, dup := urrids[v]; dup {
-				// the same URR named twice is still one association
-				break
-			}
+			// the same URR named twice is still one association
 			urrids[v] = struct{}{}
-			urrInfo, ok := s.URRIDs[v]
-			if ok {
-				urrInfo.refPdrNum++
-			}
 		}
 	}
 
+	// A Create PDR naming a PDR the session still holds replaces that PDR's URR
+	// associations (as Update PDR does) instead of counting them a second time;
+	// if the data plane rejects the create the previous bookkeeping is put back.
+	prev, held := s.PDRIDs[pdrid]
+	saved := make(map[uint32]uint16)
+	ref := func(v uint32, up bool) {
+		urrInfo, ok := s.URRIDs[v]
+		if !ok {
+			return
+		}
+		if _, done := saved[v]; !done {
+			saved[v] = urrInfo.refPdrNum
+		}
+		if up {
+			urrInfo.refPdrNum++
+		} else if urrInfo.refPdrNum > 0 {
+			urrInfo.refPdrNum--
+		}
+	}
+	for v := range urrids {
+		if held {
+			if _, was := prev.RelatedURRIDs[v]; was {
+				continue
+			}
+		}
+		ref(v, true)
+	}
+	if held {
+		for v := range prev.RelatedURRIDs {
+			if _, stays := urrids[v]; !stays {
+				ref(v, false)
+			}
+		}
+	}
 	s.PDRIDs[pdrid] = &PDRInfo{
 		RelatedURRIDs: urrids,
 	}
 
 	err = s.rnode.driver.CreatePDR(s.LocalID, req)
 	if err != nil {
+		if held {
+			for v, n := range saved {
+				if urrInfo, ok := s.URRIDs[v]; ok {
+					urrInfo.refPdrNum = n
+				}
+			}
+			s.PDRIDs[pdrid] = prev
+		}
 		return err
 	}
 
